@@ -18,6 +18,7 @@ type retInfo struct {
 	reach string
 	val   *Val // tuple or single or nil
 	st    *State
+	instr ssa.Instruction
 }
 
 type loopInfo struct {
@@ -616,7 +617,7 @@ func (fr *Frame) doReturn(r *ssa.Return) {
 			v.tuple = append(v.tuple, fr.value(x))
 		}
 	}
-	fr.rets = append(fr.rets, retInfo{reach: fr.reach, val: v, st: fr.st.clone()})
+	fr.rets = append(fr.rets, retInfo{reach: fr.reach, val: v, st: fr.st.clone(), instr: r})
 }
 
 // resolveLocal finds the SSA value bound to a source variable name as seen
